@@ -202,9 +202,12 @@ class RemoteProxy(BaseProxy):
     async def stop(self) -> None:
         try:
             await asyncio.wait_for(self._channel.send(["stop", [], {}]), 0.1)
-        except (asyncio.TimeoutError, asyncio.IncompleteReadError):
+        except (asyncio.TimeoutError, asyncio.IncompleteReadError, ConnectionError):
             pass
-        await self._channel.close()
+        try:
+            await self._channel.close()
+        except ConnectionError:
+            pass  # The connection was broken already.
         await self._reader_task
 
 
